@@ -136,6 +136,8 @@ def generate(rs: int, tier: str, index: int) -> dict:
         if kind == "deriv":
             st["var"] = c.below(nv)
             st["by"] = c.choice(["name", "index", "poly"])
+            if c.sub("second").chance(0.35):
+                st["var2"] = c.sub("second").below(nv)  # several differentiation variables in one call
         if kind in ("deriv", "mul", "pow", "align", "struct", "pickle"):
             # observe: check the stage's result but go on with the *same object* (an earlier call must not have touched it)
             st["observe"] = c.chance(0.5)
@@ -395,15 +397,25 @@ class Runner:
                 elif kind == "deriv":
                     i = st["var"]
                     var: Any = names[i] if st["by"] == "name" else i if st["by"] == "index" else numpoly.polynomial_from_attributes([[int(j == i) for j in range(nv)]], [1], tuple(names))
-                    res = numpoly.derivative(p, var)
-                    want = {}
-                    for k, c in m.items():
-                        if k[i] > 0:
-                            key = k[:i] + (k[i] - 1,) + k[i + 1:]
-                            want[key] = want.get(key, 0) + c * k[i]
+                    diffvars = [var]
+                    order = [i]
+                    if st.get("var2") is not None:
+                        j = st["var2"]
+                        diffvars.append(names[j] if st["by"] == "name" else j if st["by"] == "index" else numpoly.polynomial_from_attributes([[int(t == j) for t in range(nv)]], [1], tuple(names)))
+                        order.append(j)
+                    res = numpoly.derivative(p, *diffvars)
+                    want = dict(m)
+                    for i in order:
+                        nxt = {}
+                        for k, c in want.items():
+                            if k[i] > 0:
+                                key = k[:i] + (k[i] - 1,) + k[i + 1:]
+                                nxt[key] = nxt.get(key, 0) + c * k[i]
+                        want = nxt
                 elif kind == "eval1":
-                    res = p(*([numpy.int64(1) if idx % 2 else 1] * nv))
-                    scalar_want = sum(m.values())
+                    at = 2 if max((sum(k) for k in m), default=0) <= 40 else 1  # (1 cannot tell a power from another)
+                    res = p(*([numpy.int64(at) if idx % 2 else at] * nv))
+                    scalar_want = sum(c * at ** sum(k) for k, c in m.items())
                 elif kind == "evalpart":
                     kept_top = max((k[i] for k in m for i in range(nv) if i not in st["vars"]), default=0)
                     if not st.get("vars") or kept_top > (20 if retaining else 600):
